@@ -98,6 +98,13 @@ func (e *Engine) resolveType(name string, pkg *types.Package) types.Type {
 			return types.NewArray(t, n)
 		}
 	}
+	switch name {
+	case "set":
+		// ghost sets of integers: an SMT array Int -> Bool (indexing s[k] reads membership)
+		return ghostSetType
+	case "intmap":
+		return ghostIntMapType
+	}
 	if o := types.Universe.Lookup(name); o != nil {
 		if tn, ok := o.(*types.TypeName); ok {
 			return tn.Type()
@@ -150,6 +157,71 @@ func (e *Engine) resolveType(name string, pkg *types.Package) types.Type {
 	}
 	return nil
 }
+
+var (
+	ghostSetType    = types.NewArray(types.Typ[types.Bool], 1<<62)
+	ghostIntMapType = types.NewArray(types.Typ[types.Int64], 1<<62)
+)
+
+type ghostInfo struct {
+	key  string
+	typ  types.Type
+	sort Sort // sort of the heap array (Ref -> value)
+}
+
+// ghostOf resolves the ghost field name of type t (already dereferenced).
+func (e *Engine) ghostOf(t types.Type, name string) *ghostInfo {
+	if e.Specs == nil || len(e.Specs.GhostFields) == 0 {
+		return nil
+	}
+	for _, g := range e.Specs.GhostFields {
+		if g.Name != name {
+			continue
+		}
+		var pkg *types.Package
+		if g.Pkg != "" {
+			pkg = e.PkgByName(g.Pkg)
+		}
+		rt := e.resolveType(g.Type, pkg)
+		if rt == nil || !types.Identical(rt, t) {
+			continue
+		}
+		ft := e.resolveType(g.TypeText, pkg)
+		if ft == nil {
+			panic(unsupported("ghostfield " + g.Type + "." + g.Name + ": unknown type " + g.TypeText))
+		}
+		vs, ok := scalarSort(ft)
+		if !ok {
+			panic(unsupported("ghostfield " + g.Type + "." + g.Name + ": type must be scalar, set or intmap"))
+		}
+		return &ghostInfo{key: "GF:" + typeKey(rt) + "." + g.Name, typ: ft, sort: arrSort(SInt, vs)}
+	}
+	return nil
+}
+
+// ghostKeys lists the heap keys of all declared ghost fields whose owner type is loaded.
+func (e *Engine) ghostKeys() []hk {
+	var out []hk
+	if e.Specs == nil {
+		return nil
+	}
+	for _, g := range e.Specs.GhostFields {
+		var pkg *types.Package
+		if g.Pkg != "" {
+			pkg = e.PkgByName(g.Pkg)
+		}
+		rt := e.resolveType(g.Type, pkg)
+		if rt == nil {
+			continue
+		}
+		if gi := e.ghostOf(rt, g.Name); gi != nil {
+			out = append(out, hk{key: gi.key, sort: gi.sort})
+		}
+	}
+	return out
+}
+
+func isGhostKey(k string) bool { return strings.HasPrefix(k, "GF:") }
 
 func (c *SpecCtx) lookupIdent(name string) *V {
 	if v, ok := c.env[name]; ok {
@@ -447,6 +519,12 @@ func (c *SpecCtx) evalSel(x *ESel) *V {
 	a := c.eval(x.X)
 	// slice pseudo-fields are not exposed; struct fields only
 	t, isPtr := derefType(a.Typ)
+	if gi := u.eng.ghostOf(t, x.F); gi != nil {
+		if a.LV != nil || a.F != nil || a.Sl != nil || a.T.Sort != SInt {
+			c.fail("ghost field .%s needs an object reference", x.F)
+		}
+		return &V{Typ: gi.typ, T: sel(u.heapGet(c.st, gi.key, gi.sort), a.T)}
+	}
 	st := structOf(t)
 	if st == nil {
 		c.fail("selector .%s on non-struct %s", x.F, typeKey(a.Typ))
